@@ -287,18 +287,24 @@ def skeleton(fn, indent_name='indent', env=None, choose=None, unroll=None, on_it
                     cur['exprs'].append(e)
             elif isinstance(s, ast.If):
                 pick = choose(s.test) if choose is not None else None
+                gt_ = subst(s.test) if tlocals else s.test
                 if pick is None or pick:
-                    walk(s.body, guards + [s.test], loops)
+                    walk(s.body, guards + [gt_], loops)
                 if s.orelse and (pick is None or not pick):
-                    walk(s.orelse, guards + [ast.UnaryOp(op=ast.Not(), operand=s.test)], loops)
+                    walk(s.orelse, guards + [ast.UnaryOp(op=ast.Not(), operand=gt_)], loops)
             elif isinstance(s, ast.For):
                 # a template loop is emitted once, or - when the caller asks - several times in a row (state kept in template variables such as an indent level
                 # carries over from one iteration to the next exactly as it does when the template runs)
-                times = (unroll or {}).get(ast.unparse(s.iter).replace(' ', ''), 1)
+                sf = s
+                if tlocals and any(isinstance(x, ast.Name) and x.id in tlocals for x in ast.walk(s.iter)):
+                    # `% for dest in dests:` with dests a template local: the loop is over what the local stands for
+                    sf = ast.copy_location(ast.For(target=s.target, iter=subst(s.iter), body=s.body, orelse=s.orelse), s)
+                    ast.fix_missing_locations(sf)
+                times = (unroll or {}).get(ast.unparse(sf.iter).replace(' ', ''), 1)
                 for k in range(times):
                     if on_iteration is not None:
-                        on_iteration(s, k)
-                    walk(s.body, guards, loops + [s])
+                        on_iteration(sf, k)
+                    walk(s.body, guards, loops + [sf])
             elif isinstance(s, ast.Assign) and len(s.targets) == 1 and isinstance(s.targets[0], ast.Name):
                 v = const_int(s.value)
                 if v is not None:
